@@ -60,16 +60,17 @@ var cfgValues = map[string]map[string]string{
 }
 
 type installStep struct {
-	A           string              `json:"a"`
-	Force       bool                `json:"force"`
-	Skip        bool                `json:"skip"`
-	Conflict    bool                `json:"conflict"`
-	CfgAllowed  map[string][]string `json:"cfgAllowed"`
-	HookAllowed map[string][]string `json:"hookAllowed"`
+	A           string                         `json:"a"`
+	Sc          string                         `json:"sc"` // the scope the command names: global (no flag) | local | worktree
+	Force       bool                           `json:"force"`
+	Skip        bool                           `json:"skip"`
+	Conflict    bool                           `json:"conflict"`
+	CfgAllowed  map[string]map[string][]string `json:"cfgAllowed"` // scope -> key -> classes
+	HookAllowed map[string][]string            `json:"hookAllowed"`
 }
 type installBehaviour struct {
-	Hook0 map[string]string `json:"hook0"`
-	Cfg0  map[string]string `json:"cfg0"`
+	Hook0 map[string]string            `json:"hook0"`
+	Cfg0  map[string]map[string]string `json:"cfg0"` // scope -> key -> class
 	Steps []installStep     `json:"steps"`
 	raw   []byte
 	hash  uint64
@@ -111,6 +112,11 @@ func replayInstall(c *core.Ctx, lfsBin string, b *installBehaviour, idx int) (*c
 	}
 	sort.Strings(hooks)
 	keys := []string{"clean", "smudge", "process", "required"}
+	scopes := []string{"global", "local", "worktree"}
+	// with the extension on, --worktree names .git/config.worktree and is a scope of its own
+	if r := env.Git(repo, "config", "extensions.worktreeConfig", "true"); !r.OK() {
+		return nil, fmt.Errorf("config: %s", r.All())
+	}
 	for _, h := range hooks {
 		if by, ok := hookBytes(b.Hook0[h], h); ok {
 			if err := os.WriteFile(filepath.Join(hooksDir, h), by, 0o755); err != nil {
@@ -118,10 +124,12 @@ func replayInstall(c *core.Ctx, lfsBin string, b *installBehaviour, idx int) (*c
 			}
 		}
 	}
-	for _, k := range keys {
-		if v, ok := cfgValues[k][b.Cfg0[k]]; ok {
-			if r := env.Git(repo, "config", "--global", "filter.lfs."+k, v); !r.OK() {
-				return nil, fmt.Errorf("config: %s", r.All())
+	for _, sc := range scopes {
+		for _, k := range keys {
+			if v, ok := cfgValues[k][b.Cfg0[sc][k]]; ok {
+				if r := env.Git(repo, "config", "--"+sc, "filter.lfs."+k, v); !r.OK() {
+					return nil, fmt.Errorf("config: %s", r.All())
+				}
 			}
 		}
 	}
@@ -137,8 +145,8 @@ func replayInstall(c *core.Ctx, lfsBin string, b *installBehaviour, idx int) (*c
 		}
 		return "other", by
 	}
-	classifyCfg := func(k string) (string, string) {
-		r := env.Git(repo, "config", "--global", "--get", "filter.lfs."+k)
+	classifyCfg := func(sc, k string) (string, string) {
+		r := env.Git(repo, "config", "--"+sc, "--get", "filter.lfs."+k)
 		if !r.OK() {
 			return "unset", ""
 		}
@@ -155,8 +163,10 @@ func replayInstall(c *core.Ctx, lfsBin string, b *installBehaviour, idx int) (*c
 		for _, h := range hooks {
 			hs[h], _ = classifyHook(h)
 		}
-		for _, k := range keys {
-			cs[k], _ = classifyCfg(k)
+		for _, sc := range scopes {
+			for _, k := range keys {
+				cs[sc+"/"+k], _ = classifyCfg(sc, k)
+			}
 		}
 		return hs, cs
 	}
@@ -183,11 +193,14 @@ func replayInstall(c *core.Ctx, lfsBin string, b *installBehaviour, idx int) (*c
 		case "uninstall":
 			args = []string{"uninstall"}
 		}
+		if s.A != "update" && s.Sc != "global" {
+			args = append(args, "--"+s.Sc)
+		}
 		r := env.RunIn(repo, nil, nil, 60*time.Second, "git-lfs", args...)
 		cmds = append(cmds, fmt.Sprintf("git lfs %s -> exit %d", strings.Join(args, " "), r.Code))
 		curH, curC := snapshot()
 		mk := func(assertion, why string) *core.Violation {
-			return &core.Violation{Assertion: assertion, Fields: map[string]string{"op": s.A, "force": fmt.Sprint(s.Force)},
+			return &core.Violation{Assertion: assertion, Fields: map[string]string{"op": s.A, "force": fmt.Sprint(s.Force), "scope": s.Sc},
 				Detail: map[string]interface{}{"why": why, "behaviour": json.RawMessage(b.raw), "step": i, "commands": cmds,
 					"hooks_before": prevH, "hooks_after": curH, "config_before": prevC, "config_after": curC, "output": core.Tail(r.All(), 800)}}
 		}
@@ -202,34 +215,52 @@ func replayInstall(c *core.Ctx, lfsBin string, b *installBehaviour, idx int) (*c
 					return v, nil
 				}
 			}
-			for _, k := range keys {
-				if prevC[k] == "custom" && curC[k] != "custom" {
-					v := mk("custom-filter-setting-preserved", fmt.Sprintf("filter.lfs.%s had a custom value and is now %s", k, curC[k]))
-					v.Fields["key"] = k
-					return v, nil
+			for _, sc := range scopes {
+				for _, k := range keys {
+					if prevC[sc+"/"+k] == "custom" && curC[sc+"/"+k] != "custom" {
+						v := mk("custom-filter-setting-preserved", fmt.Sprintf("filter.lfs.%s had a custom value in the %s configuration and is now %s", k, sc, curC[sc+"/"+k]))
+						v.Fields["key"] = k
+						v.Fields["in_scope"] = sc
+						return v, nil
+					}
 				}
 			}
 			if s.Conflict && r.Code == 0 {
 				return mk("conflict-is-reported", "a user hook / custom setting stood in the way but the command reported success"), nil
 			}
 		}
-		opKey := fmt.Sprintf("%s/%v/%v", s.A, s.Force, s.Skip)
+		// a command reads and writes only the scope it names
+		for _, sc := range scopes {
+			if sc == s.Sc && s.A != "update" {
+				continue
+			}
+			for _, k := range keys {
+				if prevC[sc+"/"+k] != curC[sc+"/"+k] {
+					v := mk("other-scopes-untouched", fmt.Sprintf("filter.lfs.%s of the %s configuration changed from %s to %s", k, sc, prevC[sc+"/"+k], curC[sc+"/"+k]))
+					v.Fields["in_scope"] = sc
+					return v, nil
+				}
+			}
+		}
+		opKey := fmt.Sprintf("%s/%s/%v/%v", s.A, s.Sc, s.Force, s.Skip)
 		// (a failing install applies its configuration keys in map order and stops at the first
 		// conflict, so two failing runs may differ; idempotence is asserted for installs that succeed)
 		if s.A == "install" && opKey == lastOpKey && r.Code == 0 && lastExit == 0 && (fmt.Sprint(curH) != fmt.Sprint(prevH) || fmt.Sprint(curC) != fmt.Sprint(prevC)) {
 			return mk("install-twice-equals-once", "the second identical install changed hooks or configuration"), nil
 		}
 		// uninstall after a conflict-free install from a state without LFS artefacts restores that state
-		if s.A == "uninstall" && i == 1 && b.Steps[0].A == "install" && !b.Steps[0].Conflict && !b.Steps[0].Force {
+		if s.A == "uninstall" && i == 1 && b.Steps[0].A == "install" && b.Steps[0].Sc == s.Sc && !b.Steps[0].Conflict && !b.Steps[0].Force {
 			clean := true
 			for _, h := range hooks {
 				if b.Hook0[h] != "absent" {
 					clean = false
 				}
 			}
-			for _, k := range keys {
-				if b.Cfg0[k] != "unset" {
-					clean = false
+			for _, sc := range scopes {
+				for _, k := range keys {
+					if b.Cfg0[sc][k] != "unset" {
+						clean = false
+					}
 				}
 			}
 			if clean {
@@ -238,9 +269,9 @@ func replayInstall(c *core.Ctx, lfsBin string, b *installBehaviour, idx int) (*c
 						return mk("uninstall-restores", "hook "+h+" left behind after install + uninstall"), nil
 					}
 				}
-				for _, k := range keys {
-					if curC[k] != "unset" {
-						return mk("uninstall-restores", "filter.lfs."+k+" left behind after install + uninstall"), nil
+				for k, v := range curC {
+					if v != "unset" {
+						return mk("uninstall-restores", "filter.lfs "+k+" left behind after install + uninstall"), nil
 					}
 				}
 			}
@@ -251,9 +282,11 @@ func replayInstall(c *core.Ctx, lfsBin string, b *installBehaviour, idx int) (*c
 				c.AddInt("drift_hook_class", 1)
 			}
 		}
-		for _, k := range keys {
-			if !inList(s.CfgAllowed[k], curC[k]) {
-				c.AddInt("drift_cfg_class", 1)
+		for _, sc := range scopes {
+			for _, k := range keys {
+				if !inList(s.CfgAllowed[sc][k], curC[sc+"/"+k]) {
+					c.AddInt("drift_cfg_class", 1)
+				}
 			}
 		}
 		prevH, prevC = curH, curC
@@ -290,17 +323,29 @@ func init() {
 			b.hash = f.Sum64()
 			var k []string
 			for _, s := range b.Steps {
-				k = append(k, fmt.Sprintf("%s/%v/%v/%v", s.A, s.Force, s.Skip, s.Conflict))
+				k = append(k, fmt.Sprintf("%s/%s/%v/%v/%v", s.A, s.Sc, s.Force, s.Skip, s.Conflict))
 			}
+			// initial state up to renaming: which classes occur, and for configuration values whether
+			// they sit in the scope the first command names or in another one
 			hs := []string{}
 			for _, v := range b.Hook0 {
 				if v != "absent" {
-					hs = append(hs, v)
+					hs = append(hs, "hook:"+v)
 				}
 			}
-			for kk, v := range b.Cfg0 {
-				if v != "unset" {
-					hs = append(hs, kk+"="+v)
+			for sc, m := range b.Cfg0 {
+				rel := "other"
+				if len(b.Steps) > 0 && b.Steps[0].Sc == sc {
+					rel = "named"
+				}
+				for kk, v := range m {
+					if v != "unset" {
+						kind := "filter"
+						if kk == "required" {
+							kind = "required"
+						}
+						hs = append(hs, rel+"/"+kind+"="+v)
+					}
 				}
 			}
 			sort.Strings(hs)
@@ -357,10 +402,10 @@ func init() {
 		c.Set("traces_validated_against_impl", len(bs))
 		c.Set("evaluations", len(bs))
 		c.Set("distinct_nontrivial", len(bs))
-		c.Set("rule", "behaviours = per-edge output of spec/Install.tla: initial states with at most MaxVaried hooks/keys in a non-default class, sequences of <= MaxOps of install [--force] [--skip-smudge] / update [--force] / uninstall; one behaviour per class (operation sequence with flags and conflict bits x initial classes)")
+		c.Set("rule", "behaviours = per-edge output of spec/Install.tla: initial states with at most MaxVaried hooks/keys in a non-default class, sequences of <= MaxOps of install [--local|--worktree] [--force] [--skip-smudge] / update [--force] / uninstall [--local|--worktree]; one behaviour per class (operation sequence with flags and conflict bits x initial classes)")
 		for i := 0; i < len(bs); i += len(bs)/4 + 1 {
 			c.Sample(json.RawMessage(bs[i].raw))
 		}
-		c.Assume("scope = the user's global configuration (private HOME) plus the hooks of one repository; --local/--worktree/--system/--file scopes, core.hooksPath, symlinked or non-executable hooks and the implicit installation by other commands are not yet modelled; an empty hook file is treated like an absent one")
+		c.Assume("scopes = the user's global configuration (private HOME), --local and --worktree (extensions.worktreeConfig on) plus the hooks of one repository; --system/--file scopes, linked worktrees, core.hooksPath, symlinked or non-executable hooks and the implicit installation by other commands are not yet modelled; an empty hook file is treated like an absent one")
 	}
 }
